@@ -66,6 +66,12 @@ CHECKS = {
         design="3/C16",
         technique="Lean 4 proof (induction on n over sums on bit lists, classical gates as involutions) + exhaustive model/code correspondence + exact state-vector distribution of the real circuits",
     ),
+    "C17": dict(
+        text="Lean 4 theorems over all scripts (lists of module-level bindings), all definition lists, all clause lists and all variable orders: C17_full proves the whole statement for the model with the listed defects repaired (entry-point selection, single-function default, combined expression = conjunction of the return bits, normal-form dispatch, DIMACS clause set with exactly the satisfying assignments under a one-to-one numbering, py2qasm = export of the selected function's circuit at the chosen version); partial theorems for the code as it is outside the triggers of 5 open findings, each with a Lean witness; model tied to py2bexp.main()/py2qasm.main() called in-process on generated scripts x forms x formats x entry points x versions, printed text compared exactly and judged by an independent parser/evaluator (DIMACS under the best one-to-one numbering), convert_to_dimacs also on every small CNF.",
+        note="Trusted: Lean kernel (axioms propext, Classical.choice, Quot.sound only, audited per run); sympy's to_anf/to_cnf/to_dnf/to_nnf, str() and set iteration order are parameters of the model - their assumed spec (semantics-preserving, cnf = conjunction of clauses, no new symbols) is a hypothesis of the theorems and is validated on every call of a run (one open finding is a sympy to_anf call breaking it); script execution is represented by the list of bindings the generated script performs; compilation is a parameter of the py2qasm model (circuit from an independent compile); tweedledum/recompiler back-ends not exercised.",
+        design="3/C17",
+        technique="Lean 4 proof (structural induction, permutation/sortedness of getmembers, substitution lemma) + exact model/code correspondence + independent text oracle",
+    ),
 }
 
 NOT_YET = {
